@@ -153,6 +153,13 @@ def run(st, tier, seed):
                                        "sig": "C16:sharing", "cmd": cmd})
             if s_re["tree"] != s_mem["tree"]:
                 res.violations.append({"what": "reloaded state differs from the in-memory state", "input": inp, "sig": "C16:reload-differs", "cmd": cmd})
+            if s_re.get("wiring") != json.loads(json.dumps(s_mem.get("wiring"))):
+                wd = [(x, y) for x, y in zip(s_mem.get("wiring") or [], s_re.get("wiring") or []) if json.loads(json.dumps(x)) != y][:3]
+                res.violations.append({"what": "the structures of the reloaded state are wired differently from the in-memory ones (stand-in structures "
+                                               "of declared inputs / port structures, read by kinetic finishing)", "input": inp, "observed": wd,
+                                       "sig": "C16:reload-wiring", "cmd": cmd})
+            if any(isinstance(w_[1], list) and w_[1] and not w_[0].endswith("<ports>") for w_ in (s_mem.get("wiring") or [])):
+                res.count("structure-with-stand-ins")
             pn, sn = pil_names(out["pil"]), snap_names(s_re["tree"])
             if pn != sn:
                 diff = [(k, [x for x in pn[k] if x not in sn[k]][:3], [x for x in sn[k] if x not in pn[k]][:3]) for k in pn if pn[k] != sn[k]]
